@@ -149,6 +149,17 @@ class Builder:
             return lib.pb.Sight(s["fp"], self.q(s.get("scale")), self.q(s["h"]), self.q(s["v"]))
         return self._get("sights", i, make)
 
+    def apply_edits(self, edits):
+        """user-level edits of object fields (legal: the objects are plain mutable dataclasses), in history order:
+        [kind, index, field, value] with value a quantity spec or a plain number; field 'CD@k' edits a table point"""
+        for kind, i, field, value in edits or []:
+            obj = getattr(self, kind[:-1])(i)
+            val = self.q(value) if isinstance(value, (list, dict)) else value
+            if field.startswith("CD@"):
+                obj.drag_table[int(field[3:]) % len(obj.drag_table)].CD = val
+            else:
+                setattr(obj, field, val)
+
     def build_all(self):
         for kind, fn in (("tables", self.table), ("dms", self.dm), ("ammos", self.ammo), ("weapons", self.weapon),
                          ("atmos", self.atmo), ("winds", self.wind), ("windlists", self.windlist),
